@@ -28,6 +28,8 @@ pub struct FlowCase {
     pub max_steps: u64,
     /// Wall clock at the start of the run (None: the default, late 2023).
     pub start_wall_ns: Option<i128>,
+    /// 0 = no embedder task; n = started with chance 1/n per scheduling step (see Driver::embedder_rate).
+    pub embedder_rate: u64,
 }
 
 impl FlowCase {
@@ -46,6 +48,7 @@ impl FlowCase {
             crash_at: None,
             max_steps: 5_000,
             start_wall_ns: None,
+            embedder_rate: 0,
         }
     }
     pub fn shape_key(&self) -> u64 {
@@ -90,6 +93,7 @@ pub fn run_case(case: &FlowCase, rng: &mut Rng) -> CaseRun {
     let w = make_world(case);
     let mut d = Driver::new(&w, &case.setup);
     d.max_steps = case.max_steps;
+    d.embedder_rate = case.embedder_rate;
     let stop_idle = case.stop_idle;
     let end = d.run(case.sched, rng, |d| d.count_state(&StateSnap::Idle) >= stop_idle);
     finish_run(case, w, d, end)
@@ -146,7 +150,7 @@ pub fn report_panic(r: &mut Report, args: &Args, case_idx: u64, p: &PanicInfo, w
 // primitive generators
 
 pub fn gen_apps(rng: &mut Rng, n: usize) -> Vec<AppSpec> {
-    (0..n)
+    let apps = (0..n)
         .map(|i| {
             let mut a = AppSpec::new(APP_IDS[i], [1 + rng.below(3) as u32, rng.below(10) as u32, rng.below(100) as u32, rng.below(5) as u32]);
             if rng.chance(1, 3) {
@@ -168,7 +172,13 @@ pub fn gen_apps(rng: &mut Rng, n: usize) -> Vec<AppSpec> {
             }
             a
         })
-        .collect()
+        .collect::<Vec<_>>();
+    let mut apps = apps;
+    // now and then two apps whose ids differ only in letter case (distinct products for the library)
+    if apps.len() >= 2 && rng.chance(1, 8) {
+        apps[1].id = apps[0].id.to_uppercase();
+    }
+    apps
 }
 
 pub fn gen_cohort_field(rng: &mut Rng) -> Option<String> {
@@ -443,12 +453,22 @@ pub fn gen_check(rng: &mut Rng, apps: &[AppSpec], path: Path, cup: bool, cohorts
         }
         Path::FailStatus => {
             if rng.bool() {
-                attempts.push(RespSpec::Reply(ReplySpec::status(*rng.pick(&[400u16, 403, 500, 503])).with_retry_after(b"3600")));
+                attempts.push(RespSpec::Reply(ReplySpec::status(*rng.pick(&[400u16, 403, 500, 503, 302])).with_retry_after(b"3600")));
                 label.push_str("+ra");
             } else {
                 for _ in 0..3 {
-                    attempts.push(RespSpec::Reply(ReplySpec::status(*rng.pick(&[301u16, 400, 404, 500, 502]))));
+                    attempts.push(RespSpec::Reply(ReplySpec::status(*rng.pick(&[301u16, 400, 404, 500, 502, 302, 304, 307, 102, 199]))));
                 }
+            }
+            // a failure status stays a failure whatever the body says: sometimes it carries a well-formed offer
+            if rng.chance(1, 3) {
+                for a in attempts.iter_mut() {
+                    if let RespSpec::Reply(rep) = a {
+                        let (doc, _) = gen_doc(rng, apps, Some(true), false);
+                        rep.body = BodySpec::Doc(doc);
+                    }
+                }
+                label.push_str("+body");
             }
         }
         Path::FailUser => {
@@ -583,7 +603,7 @@ pub fn gen_history(rng: &mut Rng, cfg: &HistCfg) -> FlowCase {
             script.decisions.push(if rng.chance(1, 5) { Decision::OkDeferred(params) } else { Decision::Ok(params) });
         }
     }
-    let setup = Setup { apps, cup: cfg.cup, start_mode: cfg.start_mode, builder_order: rng.below(5) as u8, ..Default::default() };
+    let setup = Setup { apps, cup: cfg.cup, start_mode: cfg.start_mode, builder_order: rng.below(5) as u8, keys_in_config: !rng.chance(1, 4), ..Default::default() };
     let mut case = FlowCase::new(setup, script);
     case.stop_idle = cfg.paths.len();
     case.nontrivial = cfg.paths.iter().any(|p| *p != Path::NoUpdate) || cfg.n_apps > 1 || cfg.paths.len() > 1;
